@@ -142,6 +142,14 @@ def check_roundtrip(ctx, recipes, order, indent, pieces):
             ctx.violation("extraction-raises", "HTMLTextDocument raised %r" % e, wit)
             return False
         ctx.count("oracle.placeholder_among_scripts")
+        if uniq and all(re.fullmatch(r"\w+", d_.name) for d_ in uniq):
+            # the listing names exactly the recovered dependencies, one entry each, in order (nothing is merged by name)
+            ms = re.findall(r'<script type="application/html-dependencies">(.*?)</script>', a, re.S)
+            ctx.count("oracle.text_document_listing")
+            want_l = ";".join("%s[%s]" % (d_.name, d_.version) for d_ in uniq)
+            if not ms or ms[0] != want_l:
+                ctx.violation("text-document-listing-differs", "the listing inserted at the placeholder is %r, the recovered dependencies are %r" % (ms[:1], want_l), wit)
+                return False
         if a != b:
             ctx.violation("placeholder-misplaced", "placeholder among serialised scripts: result differs from supplying the dependencies directly",
                           dict(wit, got=a[:700], want=b[:700]))
@@ -278,6 +286,14 @@ def check_json_mode(ctx, tree_recipe):
     old = htmltools.html_dependency_render_mode
     htmltools.html_dependency_render_mode = "json"
     try:
+        if ctx.rng.random() < 0.4:
+            # an earlier JSON-mode conversion that failed half-way leaves nothing behind
+            for bad in (ht.div("x", ht.HTMLDependency("lost", "1.0"), _Unexpanded()), ht.TagList(ht.span(_RaisingRepr()))):
+                try:
+                    str(bad)
+                except Exception:
+                    pass
+            ctx.count("json_mode_after_failed_conversion")
         s = str(tag)
     finally:
         htmltools.html_dependency_render_mode = old
@@ -305,6 +321,16 @@ def check_json_mode(ctx, tree_recipe):
     except tokenizer.Forged:
         ctx.count("untokenizable_heads")
     return True
+
+
+class _Unexpanded:
+    def tagify(self):
+        return self
+
+
+class _RaisingRepr:
+    def _repr_html_(self):
+        raise ValueError("cannot show")
 
 
 def replay(ctx, w):
